@@ -2,6 +2,7 @@ import SC.Properties.C12
 import SC.Properties.C06
 import SC.Proofs.SrcCut
 import SC.Proofs.SrcCutB
+import SC.Proofs.SrcCountRune
 /-!
 # C12 — source-level theorems (kept apart from `SC.Properties.C12`: see `Src/C04.lean`)
 -/
@@ -44,4 +45,15 @@ theorem source_Cut_loops_agree : ∀ (o : Nat) (s rest : Bytes), Str.skipR o s =
     simp only [Str.skipR] at h
     simp only [Byt.skipB]
     exact source_Cut_loops_agree o _ rest h
+/-- **Source level**: `countRune` — what `Count` adds for a one-byte needle `K k S s` (the occurrences of U+212A resp. U+017F) — on the
+    program text of `strcase.go`, relative to `indexRuneCase`: it returns the number of code points of `s` equal to `r`
+    (`A.countRune_spec`), for a valid rune other than U+FFFD and every string shorter than 2^62 bytes -/
+theorem source_countRune (s : Bytes) (root off : Nat) (r : Nat) (hv : validRune r) (hr : r ≠ 0xFFFD) (h : Heap) (hls : s.length < 4611686018427387904)
+    (hCore : ∀ (s' : Bytes) (off' : Nat), ∃ N, ∀ fuel, N ≤ fuel →
+      run Gen.Src.str false fuel (Frame.entry str_indexRuneCase [.str s' root off', .int r]) h =
+        .ok [.int (A.indexRuneCase (GoSsa.cfg false) s' r)] h) :
+    Ret Gen.Src.str false str_countRune [.str s root off, .int r] h [.int (((dec s).countP (fun p => p.1 == r) : Nat) : Int)] h := by
+  have := Str.countRune s root off r hv hr h hls hCore
+  rw [A.countRune_spec (GoSsa.cfg false) r hv hr (s.length + 1) s 0 (by omega)] at this
+  simpa using this
 end C12
